@@ -18,7 +18,9 @@ Inductive node :=
 
 Inductive con :=
 | KDoc (self : node) (keys : list bytes) (obj : list (bytes * node))
-| KDocNil (self : node)                   (* *partialDoc whose map is nil: the document null *)
+| KDocNil (self : node) (stale : list bytes)
+    (* *partialDoc whose map is nil: the document null.  Its key list was never written by this
+       decode: it holds whatever the pooled decoder's lastKeys held (see Pool.v, C09) *)
 | KAry (self : node) (nodes : list node).
 
 Inductive root :=
@@ -44,6 +46,8 @@ Record opts := mkOpts {
   o_allow : bool;     (* AllowMissingPathOnRemove *)
   o_ensure : bool;    (* EnsurePathExistsOnAdd *)
   o_esc : bool;       (* EscapeHTML *)
+  o_stale : list bytes; (* what a pooled decodeState's lastKeys holds when this call decodes a
+                           null into a partialDoc: residue of an earlier call (C09/C10) *)
   o_nullsz : option Z (* None: a copied null is counted as the code counts it (0 for a nil node, 4
                          for a stored raw null); Some z: every copied null counts z bytes.  C12 lets
                          a copied null count 0 or 4; the correspondence evaluates both. *)
@@ -83,7 +87,7 @@ Fixpoint render (esc : bool) (n : node) : tjson :=
 Definition node_of_con (c : con) : node :=
   match c with
   | KDoc _ keys obj => NDoc keys obj
-  | KDocNil _ => NNil
+  | KDocNil _ _ => NNil
   | KAry _ ns => NAry ns
   end.
 
@@ -109,7 +113,7 @@ Definition con_get (o : opts) (c : con) (key : bytes) : res node :=
       | [] => Ok self
       | _ => match aget key obj with Some v => Ok v | None => Err EMissing end
       end
-  | KDocNil self =>
+  | KDocNil self _ =>
       match key with [] => Ok self | _ => Err EExpectedObject end
   | KAry self ns =>
       match key with
@@ -179,7 +183,7 @@ Definition ary_remove (o : opts) (ns : list node) (key : bytes) : res (list node
 Definition con_add (o : opts) (c : con) (key : bytes) (v : node) : res con :=
   match c with
   | KDoc self keys obj => let (k', o') := doc_set keys obj key v in Ok (KDoc self k' o')
-  | KDocNil _ => Err EExpectedObject
+  | KDocNil _ _ => Err EExpectedObject
   | KAry self ns =>
       match ary_add o ns key v with
       | Ok ns' => Ok (KAry self ns') | Err e => Err e | Panic => Panic
@@ -189,7 +193,7 @@ Definition con_add (o : opts) (c : con) (key : bytes) (v : node) : res con :=
 Definition con_set (o : opts) (c : con) (key : bytes) (v : node) : res con :=
   match c with
   | KDoc self keys obj => let (k', o') := doc_set keys obj key v in Ok (KDoc self k' o')
-  | KDocNil _ => Err EExpectedObject
+  | KDocNil _ _ => Err EExpectedObject
   | KAry self ns =>
       match ary_set o ns key v with
       | Ok ns' => Ok (KAry self ns') | Err e => Err e | Panic => Panic
@@ -203,7 +207,7 @@ Definition con_remove (o : opts) (c : con) (key : bytes) : res con :=
         (* idx := first index in keys; keys[0:idx] with idx = -1 panics *)
         if kmem key keys then Ok (KDoc self (kdel1 key keys) (adel key obj)) else Panic
       else if o_allow o then Ok c else Err EMissing
-  | KDocNil _ => Err EExpectedObject
+  | KDocNil _ _ => Err EExpectedObject
   | KAry self ns =>
       match ary_remove o ns key with
       | Ok ns' => Ok (KAry self ns') | Err e => Err e | Panic => Panic
@@ -230,7 +234,7 @@ Definition con_put (o : opts) (c : con) (key : bytes) (ch : node) : con :=
       | [] => KDoc ch keys obj
       | _ => KDoc self keys (aset key ch obj)
       end
-  | KDocNil self => match key with [] => KDocNil ch | _ => c end
+  | KDocNil self st => match key with [] => KDocNil ch st | _ => c end
   | KAry self ns =>
       match key with
       | [] => KAry ch ns
@@ -421,11 +425,11 @@ Definition op_value (op : operation) : option node :=
   | None => None
   end.
 
-Definition root_of_value (t : tjson) : res root :=
+Definition root_of_value (o : opts) (t : tjson) : res root :=
   match t with
   | TObj ms => let (k, o) := doc_of ms in Ok (RCon (KDoc (NRaw t) k o))
   | TArr l => Ok (RCon (KAry (NRaw t) (map child l)))
-  | TNull => Ok (RCon (KDocNil (NRaw t)))
+  | TNull => Ok (RCon (KDocNil (NRaw t) (o_stale o)))
   | _ => Err EDecode
   end.
 
@@ -556,7 +560,7 @@ Definition op_add (o : opts) (st : state) (op : operation) : res state :=
           match op_value op with
           | None => Panic                     (* val.raw on a nil node *)
           | Some (NRaw t) =>
-              match root_of_value t with
+              match root_of_value o t with
               | Ok r => Ok (mkState r (s_acc st))
               | Err e => Err e
               | Panic => Panic
@@ -691,7 +695,7 @@ Definition op_test (o : opts) (st : state) (op : operation) : res state :=
           let self := root_node (s_root st) in
           let eq :=
             match s_root st with
-            | RCon (KDocNil _) =>
+            | RCon (KDocNil _ _) =>
                 (* a non-nil *partialDoc with a nil map: not null; equal to an empty object only *)
                 if is_null ov then false
                 else match shape_of ov with SDoc [] => true | _ => false end
@@ -854,18 +858,18 @@ Inductive apply_result :=
 | RErr (index : option nat) (e : errclass)     (* index = None: before or after the operations *)
 | RPanic.
 
-Definition load_doc (t : tjson) : res root :=
+Definition load_doc (o : opts) (t : tjson) : res root :=
   match t with
   | TObj ms => let (k, ob) := doc_of ms in Ok (RCon (KDoc (NRaw t) k ob))
   | TArr l => Ok (RCon (KAry (NRaw t) (map child l)))
-  | TNull => Ok (RCon (KDocNil (NRaw t)))
+  | TNull => Ok (RCon (KDocNil (NRaw t) (o_stale o)))
   | _ => Err EDecode
   end.
 
 Definition marshal_root (o : opts) (r : root) : res tjson :=
   match r with
   | RNull => Ok TNull
-  | RCon (KDocNil _) => Err EExpectedObject
+  | RCon (KDocNil _ _) => Err EExpectedObject
   | RCon c => Ok (render (o_esc o) (node_of_con c))
   end.
 
@@ -876,7 +880,7 @@ Definition output (o : opts) (indent : bytes) (t : tjson) : bytes :=
   end.
 
 Definition apply_tree (o : opts) (indent : bytes) (p : list operation) (doc : tjson) : apply_result :=
-  match load_doc doc with
+  match load_doc o doc with
   | Err e => RErr None e
   | Panic => RPanic
   | Ok r =>
